@@ -291,7 +291,7 @@ type c11Op struct {
 func c11NewOp(id int, kind string, v int) *c11Op {
 	op := &c11Op{id: id, kind: kind, v: v, bid: "nobid", out: "error", bidSeen: "none",
 		gates: map[string]chan struct{}{}, arrived: map[string]chan struct{}{}, done: make(chan struct{})}
-	for _, g := range []string{"src", "name", "bid"} {
+	for _, g := range []string{"pre", "src", "name", "bid"} {
 		op.gates[g] = make(chan struct{})
 		op.arrived[g] = make(chan struct{})
 	}
@@ -424,7 +424,11 @@ func (m *c11Majordomo) Fetch(ctx context.Context, _ string) ([]byte, error) {
 
 // ---- accounts ----
 
-func (e *c11Env) ValidatingAccountsForEpoch(_ context.Context, _ phase0.Epoch) (map[phase0.ValidatorIndex]e2wtypes.Account, error) {
+func (e *c11Env) ValidatingAccountsForEpoch(ctx context.Context, _ phase0.Epoch) (map[phase0.ValidatorIndex]e2wtypes.Account, error) {
+	if op := c11OpFrom(ctx); op != nil && op.kind == "fetch" {
+		// before fetchExecutionConfig touches the lock
+		op.pass("pre")
+	}
 	e.mu.Lock()
 	defer e.mu.Unlock()
 	e.acctsCalls++
@@ -466,7 +470,12 @@ func (e *c11Env) AccountByPublicKey(ctx context.Context, pubkey phase0.BLSPubKey
 	if v == 99 || v > 2 {
 		return nil, errors.New("unknown account")
 	}
-	return c11AccountFor(c11OpFrom(ctx), v), nil
+	op := c11OpFrom(ctx)
+	if op != nil {
+		// before auctionBlock touches the lock
+		op.pass("pre")
+	}
+	return c11AccountFor(op, v), nil
 }
 
 func c11AccountFor(op *c11Op, v int) *c11Account {
